@@ -10,7 +10,6 @@
 //! (second clause vacuous without such a u); probabilities get the 1e-6 allowance, and the final
 //! value uses max(d, 64 ulp(|t| + sum of row ranges)).
 
-use lightmotif::abc::Dna;
 use lightmotif::pwm::ScoringMatrix;
 use lightmotif_tfmpvalue::TfmPvalue;
 use serde_json::{json, Value};
@@ -74,7 +73,7 @@ fn clauses(ex: &Exact, p: f64, t: f64, d: f64) -> Vec<(&'static str, String)> {
     v
 }
 
-pub fn check_query(mat: &Mat, pssm: &ScoringMatrix<Dna>, ex: &Exact, p: f64) -> QueryOutcome {
+pub fn check_query<A: lightmotif::abc::Alphabet>(mat: &Mat, pssm: &ScoringMatrix<A>, ex: &Exact, p: f64) -> QueryOutcome {
     let m = mat.width();
     let mut out = QueryOutcome { steps: Vec::new(), final_t: None, evals: 0, failures: Vec::new(), late: false };
     let cls = &mat.class;
@@ -206,7 +205,7 @@ pub fn run(ctx: &mut Ctx, rep: &mut Report) {
     let grid = format!(
         "queries per matrix: p = every attainable tail probability P(S >= a) (at most {} evenly ranked ones), each x(1-1e-7) and x(1+1e-7), geometric midpoints of adjacent ones, 1e-17, 1e-16, 2.2e-16, 1e-15, 1e-12, 1e-9, 1e-6, .5, .999 (below machine epsilon: attainable under the skewed background), restricted to 0 < p < 1; \
          every refinement step of approximate_score with g >= 1e-9 and the final score(); oracle: brute-force tail over all K'^M words, d = (M+2)g, 1e-6 on probabilities; \
-         one evaluation = one (matrix, background, p, step) check; non-trivial = smallest attainable tail < p < total mass",
+         every matrix whose background gives the wildcard no mass (quick: widths <= 4) is ALSO checked as a protein matrix carrying the same distribution (DNA columns at protein ranks 19, 2, 11, 6 with the DNA background counts, all other residues background 0 and copies of cells of their row, X = the DNA wildcard cell): same queries, same oracle; one evaluation = one (matrix, background, p, step) check; non-trivial = smallest attainable tail < p < total mass",
         cap
     );
     rep.space("logodds", &format!("product: {} ; {}", exact::menu_text(&cfg.widths, &win, &cfg.pseudos), grid));
@@ -220,6 +219,8 @@ pub fn run(ctx: &mut Ctx, rep: &mut Report) {
         rep.space(e.space, "");
         let ex = Exact::new(&e.mat);
         let pssm = e.mat.scoring();
+        // quick tier: widths up to 4 (the protein loops are five times longer); thorough: every matrix
+        let prot = if ctx.quick() && e.mat.width() > 4 { None } else { e.mat.scoring_protein().map(|pp| (e.mat.as_protein_embedded(), pp)) };
         if ex.scores.len() > cap {
             capped_queries = true;
         }
@@ -237,6 +238,20 @@ pub fn run(ctx: &mut Ctx, rep: &mut Report) {
             }
             for f in &o.failures {
                 rep.violation(f.sig.clone(), f.msg.clone(), || case_json(&e.mat, p, kind, f.step, &o));
+            }
+            // the same distribution carried by a protein matrix (symbol loops to K-1 = 20; see Mat::scoring_protein)
+            if let Some((pm, pp)) = &prot {
+                let o = check_query(pm, pp, &ex, p);
+                for _ in 0..o.evals {
+                    rep.eval_distinct(nontrivial);
+                }
+                for f in &o.failures {
+                    rep.violation(f.sig.clone(), f.msg.clone(), || {
+                        let mut v = case_json(pm, p, kind, f.step, &o);
+                        v["embedding"] = json!("protein");
+                        v
+                    });
+                }
             }
             if e.mat.width() == 3 && kind.starts_with("geometric") && qi > 10 {
                 rep.sample_space(2, || {
@@ -271,12 +286,26 @@ pub fn replay(_ctx: &mut Ctx, rep: &mut Report, case: &Value) {
     };
     let kind = case["query_kind"].as_str().unwrap_or("replay").to_string();
     let ex = Exact::new(&mat);
-    let pssm = mat.scoring();
-    let o = check_query(&mat, &pssm, &ex, p);
+    let protein = case["embedding"].as_str() == Some("protein");
+    let o = if protein {
+        let pm = mat.as_protein_embedded();
+        let pp = mat.scoring_protein().expect("protein embedding of a background with wildcard mass");
+        check_query(&pm, &pp, &ex, p)
+    } else {
+        let pssm = mat.scoring();
+        check_query(&mat, &pssm, &ex, p)
+    };
+    let mat = if protein { mat.as_protein_embedded() } else { mat };
     for _ in 0..o.evals.max(1) {
         rep.eval_distinct(true);
     }
     for f in &o.failures {
-        rep.violation(f.sig.clone(), f.msg.clone(), || case_json(&mat, p, &kind, f.step, &o));
+        rep.violation(f.sig.clone(), f.msg.clone(), || {
+            let mut v = case_json(&mat, p, &kind, f.step, &o);
+            if protein {
+                v["embedding"] = json!("protein");
+            }
+            v
+        });
     }
 }
